@@ -29,7 +29,7 @@ type c09stall struct {
 func newMonC09() *monC09 {
 	return &monC09{deposits: map[string][]c09dep{}, lastEnd: GenesisTime, stalls: map[int64]c09stall{}}
 }
-func (m *monC09) Name() string { return "C09" }
+func (m *monC09) Name() string     { return "C09" }
 func (m *monC09) Finish(r *Runner) {}
 
 const c09prec = 2048
